@@ -2,9 +2,10 @@
    Statements only; every proof is `exact <lemma of lib/>`.  H is ANY flip function of the original
    head (the salt only selects H), n any width (32, 128, ...), B any host-bit count, seeds any list of
    preserved prefixes/networks (as bit strings). *)
-From Coq Require Import List Bool Arith.
+From Coq Require Import String.
+From Coq Require Import List Bool Arith ZArith.
 Import ListNotations.
-Require Import PPCore PPHost Memo MemoProofs.
+Require Import PPCore PPHost Memo MemoProofs PyLib G_fn_ip RefIpCommon RefAnon.
 
 Section C01.
 Variable H : bits -> bool.
@@ -33,6 +34,20 @@ Theorem C01_code_computes_image :
 Proof. exact (MemoProofs.fresh_history H n B seeds). Qed.
 End C01.
 
+(* TIE A (function level): the Gallina code GENERATED on this run from _BaseIpAnonymizer.anonymize / _anonymize_bits, started on any
+   memo satisfying the invariant, returns the pure image and re-establishes the invariant -- for every salter H that the
+   function-valued field implements.  (py_format / py_int at the two edges are library models, taken as given at the point of use.) *)
+Theorem C01_generated_anonymize_returns_the_pure_image :
+  forall (H : list bool -> bool) (py_call : pyval -> pyval -> PyLib.res) (clsname : list Z) (saltv lengthv fmtv salterv : pyval) (rest : list (pyval * pyval))
+         (n B : nat) (seeds : list (list bool)),
+  (forall b, py_call salterv (VList [saltv; VS b]) = Normal (VInt (if H b then 1 else 0)%Z)) ->
+  forall d x bits y, MemoProofs.Inv H n B seeds d -> List.length bits = n -> (B <= n)%nat ->
+  py_format fmtv (VList [VInt x]) (VDict []) = Normal (VS bits) ->
+  py_int (VS (MemoProofs.AB H n B seeds bits)) (VInt 2) = Normal (VInt y) ->
+  exists d', gen__BaseIpAnonymizer__anonymize py_call (S (List.length bits)) (mkself clsname saltv lengthv fmtv salterv (Z.of_nat B) rest d) (VInt x)
+             = Normal (VTuple [VInt y; mkself clsname saltv lengthv fmtv salterv (Z.of_nat B) rest d']) /\ MemoProofs.Inv H n B seeds d'.
+Proof. exact gen_anonymize_returns_image. Qed.
+
 (* non-vacuity: a concrete 4-bit instance with one preserved prefix and one host bit *)
 Example C01_instance :
   let H := fun h : bits => Nat.odd (length h) in
@@ -44,3 +59,4 @@ Print Assumptions C01_common_prefix_length_preserved.
 Print Assumptions C01_injective.
 Print Assumptions C01_surjective.
 Print Assumptions C01_code_computes_image.
+Print Assumptions C01_generated_anonymize_returns_the_pure_image.
